@@ -430,15 +430,15 @@ func c13TextStreams(quick bool) []c13Stream {
 	// text reads of a value that a binary client stored with a kind flag (array / key-value / property header) and
 	// inner lengths of its own choosing
 	for vi, val := range [][]byte{
-		{0, 0x02, 0xff, 0xff, 0xff, 0x7f, 'a'},                  // array, element length beyond the value
-		{0, 0x02, 1, 0, 0, 0},                                  // array, element announced but missing
-		{0, 0x02, 1, 0, 0},                                     // array, truncated length
-		{0, 0x04, 0xff, 0, 0, 0, 'k'},                          // key-value, key length beyond the value
-		{0, 0x04, 1, 0, 0, 0, 'k', 0xff, 0xff, 0, 0, 'v'},      // key-value, value length beyond the value
-		{0, 0x04, 1, 0, 0, 0, 'k', 1, 0},                       // key-value, truncated value length
-		{0, 0x10, 0xff, 0xff, 1, 2},                            // property header longer than the value
+		{0, 0x02, 0xff, 0xff, 0xff, 0x7f, 'a'},                // array, element length beyond the value
+		{0, 0x02, 1, 0, 0, 0},                                 // array, element announced but missing
+		{0, 0x02, 1, 0, 0},                                    // array, truncated length
+		{0, 0x04, 0xff, 0, 0, 0, 'k'},                         // key-value, key length beyond the value
+		{0, 0x04, 1, 0, 0, 0, 'k', 0xff, 0xff, 0, 0, 'v'},     // key-value, value length beyond the value
+		{0, 0x04, 1, 0, 0, 0, 'k', 1, 0},                      // key-value, truncated value length
+		{0, 0x10, 0xff, 0xff, 1, 2},                           // property header longer than the value
 		{0, 0x12, 4, 0, 1, 1, 0, 'p', 0xff, 0xff, 0xff, 0x7f}, // property + array with a wild element length
-		{0, 0x01, 1, 2, 3},                                     // number shorter than 8 bytes
+		{0, 0x01, 1, 2, 3},                                    // number shorter than 8 bytes
 	} {
 		n := len(val)
 		frameV := append([]byte{byte(n), byte(n >> 8), 0, 0}, val...)
